@@ -22,6 +22,9 @@ NAMES = ['...', '....', '.bashrc', 'plain', 'a b', ' lead', 'trail ', 'n\nl', 'p
          'x.trashinfo', '.hidden', 'a\\b', "q'uote", 'dq"', 'L' * 200, '~t', '*star*']
 
 
+RULE += ' Since round 8 a quarter of the round trips have foreign neighbours in the home trash (an undated entry of the same original path, an info file that is not UTF-8).'
+
+
 def gen(rng, n):
     scns, metas = [], []
     for i in range(n):
@@ -93,6 +96,16 @@ def gen(rng, n):
                     nodes += [['d', td + '/files/' + name, 0o755], ['f', td + '/files/' + name + '/old', 'left over'], ['d', td + '/info', 0o700]]
                 else:
                     nodes += [['f', td + '/files/' + name, 'left over'], ['d', td + '/info', 0o700]]
+        if not tdopt and rng.random() < 0.25 and full.isprintable() and all(ord(c) < 0xd800 or ord(c) > 0xdfff for c in full):
+            # what other implementations and interrupted runs leave in the home trash, next to the entry made by trash-put: an entry of
+            # the SAME original path without a (valid) date, and an info file that is not UTF-8 - neither may keep ours from coming back
+            ht = lay.home_trash
+            if rng.random() < 0.6:
+                nodes += [['f', ht + '/info/frn_same.trashinfo', '[Trash Info]\nPath=%s\n%s' % (scen.quote(full), rng.choice(['', 'DeletionDate=yesterday\n', 'DeletionDate=\n']))],
+                          ['f', ht + '/files/frn_same', 'foreign']]
+            if rng.random() < 0.6:
+                nodes += [['f', ht + '/info/frn_latin1.trashinfo', b'[Trash Info]\nPath=/home/u/caf\xe9\nDeletionDate=2001-01-01T00:00:00\n'],
+                          ['f', ht + '/files/frn_latin1', 'foreign']]
         sort = rng.choice(['date', 'path', 'none', None])
         scope_kind = rng.choice(['path', 'parent-arg', 'cwd-parent', 'ancestor', 'root'])
         steps = [{'cmd': 'put', 'argv': tdopt + ['--', full + ('/' if sibcase else '')], 'now': [2024, 5, 6, 7, 8, 9, 0], 'env': putenv}]
